@@ -109,35 +109,43 @@ func (sc *concScenario) computeSeq() string {
 	var rec func(k int)
 	rec = func(k int) {
 		if k == n {
-			order := append([]int{}, perm...)
-			ex := &vrt.Explorer{Bound: 0, Run: func(prefix []int) *vrt.Exec {
-				return sc.world(prefix, vrt.Config{DataExplore: true, ShuffleDepth: 2}, func(env *vrt.Env, td *TD) (string, string, string) {
-					res := make([]string, n)
-					for _, i := range order {
-						res[i] = sc.ops[i].name + "=" + sc.ops[i].do(td)
+			// one-at-a-time callers do not wait for the engine's asynchronous processing between two calls: both the
+			// back-to-back sequence and the one with the system run to quiescence in between are sequential references
+			for _, settleBetween := range []bool{true, false} {
+				settleBetween := settleBetween
+				order := append([]int{}, perm...)
+				ex := &vrt.Explorer{Bound: 0, Run: func(prefix []int) *vrt.Exec {
+					return sc.world(prefix, vrt.Config{DataExplore: true, ShuffleDepth: 2}, func(env *vrt.Env, td *TD) (string, string, string) {
+						res := make([]string, n)
+						for _, i := range order {
+							res[i] = sc.ops[i].name + "=" + sc.ops[i].do(td)
+							if settleBetween {
+								env.Settle()
+							}
+						}
 						env.Settle()
-					}
-					extra := ""
-					if sc.finish != nil {
-						extra = sc.finish(td)
-					}
-					if v := membInvariant(td); v != nil {
-						return "", "sequential-invariant", v.Key + ": " + v.Detail
-					}
-					return concObservation(td, res, extra), "", ""
-				})
-			}}
-			ex.OnExec = func(prefix []int, x *vrt.Exec) {
-				if x.Violation == "" {
-					if !sc.seq[x.Outcome] {
-						sc.seq[x.Outcome] = true
-						sc.seqList = append(sc.seqList, x.Outcome)
+						extra := ""
+						if sc.finish != nil {
+							extra = sc.finish(td)
+						}
+						if v := membInvariant(td); v != nil {
+							return "", "sequential-invariant", v.Key + ": " + v.Detail
+						}
+						return concObservation(td, res, extra), "", ""
+					})
+				}}
+				ex.OnExec = func(prefix []int, x *vrt.Exec) {
+					if x.Violation == "" {
+						if !sc.seq[x.Outcome] {
+							sc.seq[x.Outcome] = true
+							sc.seqList = append(sc.seqList, x.Outcome)
+						}
 					}
 				}
-			}
-			ex.Explore(nil, 0)
-			if ex.Fatal != "" {
-				fatal = ex.Fatal
+				ex.Explore(nil, 0)
+				if ex.Fatal != "" {
+					fatal = ex.Fatal
+				}
 			}
 			return
 		}
@@ -282,6 +290,60 @@ func concScenarios(tier string) []*concScenario {
 			mk("three-callers", func(c, o string) []concOp {
 				return []concOp{dyn("CUR", "call"), dyn("OTHER", "call"), dyn("CUR", "fold")}
 			})
+		}
+		if n == 2 {
+			// every other kind of player action submitted twice at a point where the hand allows it once
+			until := func(want func(td *TD) bool) func(td *TD) bool {
+				return func(td *TD) bool {
+					if !seated(2)(td) {
+						return false
+					}
+					td.start()
+					pol := &HandPolicy{Line: lineCheckDown, Finish: "all"}
+					return td.runUntil(pol, 300, func() bool { return want(td) })
+				}
+			}
+			canDo := func(kind string) func(td *TD) bool {
+				return func(td *TD) bool {
+					p := td.pending()
+					if p.Kind != "wager" {
+						return false
+					}
+					cp := p.GS.GetPlayer(p.GS.Status.CurrentPlayer)
+					return hasStr(cp.AllowedActions, kind)
+				}
+			}
+			for _, kind := range []string{"fold", "check", "allin", "raise"} {
+				kind := kind
+				sc := &concScenario{name: "game/n2/" + kind + "-twice", seats: 4, setup: until(canDo(kind)), finish: playOut}
+				sc.pre = func(td *TD) { td.memo("CUR", func() string { return resolveWho(td, "CUR") }) }
+				act := concOp{name: kind + "(cur)", do: func(td *TD) string {
+					id := td.memo("CUR", func() string { return resolveWho(td, "CUR") })
+					return opAct(id, kind, 4).do(td)
+				}}
+				sc.ops = []concOp{act, act}
+				out = append(out, sc)
+			}
+			for _, req := range []string{"ready", "blinds"} {
+				req := req
+				kind := map[string]string{"ready": "ready", "blinds": "pay"}[req]
+				sc := &concScenario{name: "game/n2/" + kind + "-by-both-players", seats: 4, setup: until(func(td *TD) bool { return td.pending().Kind == req }), finish: playOut}
+				sc.pre = func(td *TD) {
+					p := td.pending()
+					td.memo("P0", func() string { return p.Players[0] })
+					td.memo("P1", func() string { return p.Players[len(p.Players)-1] })
+				}
+				mkop := func(who string) concOp {
+					return concOp{name: kind + "(" + strings.ToLower(who) + ")", do: func(td *TD) string {
+						id := td.memos[who]
+						r := opAct(id, kind, 2).do(td)
+						td.responded[id] = true
+						return r
+					}}
+				}
+				sc.ops = []concOp{mkop("P0"), mkop("P1")}
+				out = append(out, sc)
+			}
 		}
 	}
 	return out
